@@ -38,6 +38,13 @@ impl<T: UciTx, H: Heuristic, M: MoveOrder> Search<T, H, M> {
 
     pub fn idle(&mut self) {
         while !self.flags.quit_as_soon_as_possible {
+            #[cfg(inkayaku_verif)]
+            if let Some(budget) = self.state.verif_idle_budget.as_mut() {
+                if *budget == 0 {
+                    return;
+                }
+                *budget -= 1;
+            }
             if let Ok(message) = self.search_rx.recv() {
                 match message {
                     UciUciNewGame => {
@@ -291,6 +298,10 @@ impl<T: UciTx, H: Heuristic, M: MoveOrder> Search<T, H, M> {
 
     #[inline(always)]
     fn should_check_flags(&mut self) -> bool {
+        #[cfg(inkayaku_verif)]
+        if let Some(period) = self.state.verif_poll_period {
+            return self.state.metrics.last.negamax_nodes % period == 0 && self.state.metrics.last.negamax_nodes > 0;
+        }
         self.state.metrics.last.negamax_nodes % 100_000 == 0 && self.state.metrics.last.negamax_nodes > 0
     }
 
@@ -549,6 +560,44 @@ impl<T: UciTx, H: Heuristic, M: MoveOrder> Search<T, H, M> {
     }
 }
 
+/// Verification hooks (compiled only with `--cfg inkayaku_verif`)
+#[cfg(inkayaku_verif)]
+impl<T: UciTx, H: Heuristic, M: MoveOrder> Search<T, H, M> {
+    /// Process exactly `messages` messages from the channel with the real `idle` dispatch, then return.
+    pub fn verif_run(&mut self, messages: usize) {
+        self.state.verif_idle_budget = Some(messages);
+        self.idle();
+        self.state.verif_idle_budget = None;
+    }
+
+    /// Poll the stop flag / channel / move time every `period` negamax nodes instead of every 100 000.
+    pub fn verif_set_poll_period(&mut self, period: Option<u64>) {
+        self.state.verif_poll_period = period;
+    }
+
+    /// Replace the wall clock by `nodes * ns_per_node`.
+    pub fn verif_set_virtual_clock(&mut self, ns_per_node: Option<u64>) {
+        self.state.verif_ns_per_node = ns_per_node;
+    }
+
+    /// FEN of the position the search thread currently holds.
+    pub fn verif_board_fen(&self) -> String {
+        Fen::from(&self.state.bitboard).fen
+    }
+
+    pub fn verif_board_snapshot(&self) -> String {
+        format!("{:?}", self.state.bitboard)
+    }
+
+    pub fn verif_negamax_nodes(&self) -> u64 {
+        self.state.metrics.last.negamax_nodes
+    }
+
+    pub fn verif_has_quit(&self) -> bool {
+        self.flags.quit_as_soon_as_possible
+    }
+}
+
 #[inline(always)]
 const fn calculate_heuristic_factor(color: ColorBits) -> i32 {
     1 + (color as i32) * -2
@@ -632,6 +681,12 @@ struct SearchState {
     started_at: SystemTime,
     is_running: bool,
     metrics: MetricsService,
+    #[cfg(inkayaku_verif)]
+    verif_idle_budget: Option<usize>,
+    #[cfg(inkayaku_verif)]
+    verif_poll_period: Option<u64>,
+    #[cfg(inkayaku_verif)]
+    verif_ns_per_node: Option<u64>,
 }
 
 impl SearchState {
@@ -640,6 +695,10 @@ impl SearchState {
     }
 
     fn elapsed(&self) -> Duration {
+        #[cfg(inkayaku_verif)]
+        if let Some(ns_per_node) = self.verif_ns_per_node {
+            return Duration::from_nanos(self.metrics.last.total_nodes() * ns_per_node);
+        }
         self.started_at.elapsed().unwrap_or(Duration::ZERO)
     }
 }
@@ -655,6 +714,12 @@ impl Default for SearchState {
             started_at: SystemTime::UNIX_EPOCH,
             is_running: false,
             metrics: MetricsService::default(),
+            #[cfg(inkayaku_verif)]
+            verif_idle_budget: None,
+            #[cfg(inkayaku_verif)]
+            verif_poll_period: None,
+            #[cfg(inkayaku_verif)]
+            verif_ns_per_node: None,
         }
     }
 }
